@@ -111,7 +111,23 @@ class StructConst(ast.NodeTransformer):
         return node
 
 
+class SuppressToTry(ast.NodeTransformer):
+    """`with suppress(E1, E2): BODY`  ->  `try: BODY except (E1, E2): pass`   (contextlib.suppress is exactly that)."""
+
+    def visit_With(self, node):
+        self.generic_visit(node)
+        if len(node.items) == 1 and node.items[0].optional_vars is None and isinstance(node.items[0].context_expr, ast.Call):
+            c = node.items[0].context_expr
+            name = c.func.id if isinstance(c.func, ast.Name) else (c.func.attr if isinstance(c.func, ast.Attribute) else None)
+            if name == "suppress" and c.args and not c.keywords and not any(isinstance(a, ast.Starred) for a in c.args):
+                typ = c.args[0] if len(c.args) == 1 else ast.Tuple(elts=list(c.args), ctx=ast.Load())
+                h = ast.ExceptHandler(type=typ, name=None, body=[ast.copy_location(ast.Pass(), node)])
+                return ast.copy_location(ast.Try(body=node.body, handlers=[ast.copy_location(h, node)], orelse=[], finalbody=[]), node)
+        return node
+
+
 def canonicalise(tree: ast.AST) -> ast.AST:
+    tree = SuppressToTry().visit(tree)
     table = {}
     for s_ in getattr(tree, "body", []):
         if isinstance(s_, ast.Assign) and len(s_.targets) == 1 and isinstance(s_.targets[0], ast.Name) and isinstance(s_.value, ast.Call) \
